@@ -13,7 +13,8 @@
    embedded trees, binary-flagged content and the trim/keep interplay with canonical generation are corresponded on the C.
    Source transcoding: CORRESPONDED ONLY (Expat's work). *)
 From Coq Require Import List NArith.
-From Wbxml Require Import Model.Codec Model.EncWbxml Proofs.EncWbxmlProofs Proofs.EncWbxmlC07.
+From Wbxml Require Import Model.Codec Model.TablesDefs Model.EncWbxml Proofs.EncWbxmlProofs Proofs.EncWbxmlC07 Proofs.EncWbxmlAbs Proofs.EncWbxmlDenote2.
+From Wbxml Require Model.Parser Model.Spec.
 From Wbxml Require Model.EncXml Model.XmlRead Proofs.EncXmlProofs Proofs.EncXmlIndent Proofs.EncXmlC07.
 Import ListNotations.
 Local Open Scope N_scope.
@@ -76,6 +77,26 @@ Theorem C07_wbxml_value_elements_spell_value : forall (den : velt -> bytes),
   split_value e st is_attr buffer = Some l -> flat_map den l = buffer.
 Proof. exact split_value_den. Qed.
 Print Assumptions C07_wbxml_value_elements_spell_value.
+
+(* ON DECODED BYTES (the sentence that needed the Coq strict decoder): for one tree the outputs under any two
+   (version 1.0..1.3, anonymous or not) pairs are both accepted by the PROVED strict decoder Spec.decode_lang (language
+   forced) and decode to the SAME event list.  PARTIAL: string table off on both sides, and the fragment of
+   C06_strict_decoding_yields_normalised_source_with_attributes_partial (token tags, attributes with value prefixes / value
+   tokens / inline remainders, text; languages without typed values).  NOT proved: string table on versus off (with the
+   table one text is written as several items, i.e. several character events: equality holds only modulo merging adjacent
+   character data); checked on the C by the same decoder for every case. *)
+Theorem C07_wbxml_options_decode_equal_partial : forall tblb TBL L v1 v2 a1 a2 k tag attrs ch bs1 bs2,
+  let o1 := mk_opts v1 false k a1 in let o2 := mk_opts v2 false k a2 in
+  plain_env (enc_env (to_blang L) o1) = true -> vals_ok L = true -> l_exts L = None ->
+  frag2_node (enc_env (to_blang L) o1) (NElt tag attrs ch) = true -> tree_ok2 L 0 (NElt tag attrs ch) = true ->
+  find (fun x => l_id x =? l_id L) TBL = Some L ->
+  v1 < 4 -> v2 < 4 -> l_pub_num L < 4294967296 -> l_pub_num L <> 0 ->
+  (match l_pub_text L with Some p => Spec.bytes_okb (Parser.B p) = true /\ len (Parser.B p) + 1 < 4294967296 | None => True end) ->
+  enc_wbxml tblb (to_blang L) o1 [NElt tag attrs ch] = EOk bs1 ->
+  enc_wbxml tblb (to_blang L) o2 [NElt tag attrs ch] = EOk bs2 ->
+  exists evs, Spec.decode_lang TBL (l_id L) bs1 = Some evs /\ Spec.decode_lang TBL (l_id L) bs2 = Some evs.
+Proof. exact options_decode_equal. Qed.
+Print Assumptions C07_wbxml_options_decode_equal_partial.
 
 (* ---- XML half (statements over the XML generator model; qualified names: its tree type is its own) -------------- *)
 Module XmlHalf.
